@@ -23,6 +23,8 @@ FIXED = [
  ("F14", ["C11", "C14"], "01c3a28", "chef wrote kept-then-new data under new-then-kept names (user recipes) or without the kept names (built-ins)"),
  ("F15", ["C11"], "9cda633", "chef cleaned temperature / mass fractions in place, so kept temp and Y(O2) differed from the input"),
  ("F16", ["C12"], "e66a931", "second parallel chef run in one process reused pathos workers holding the first run's pressure and solution arrays"),
+ ("F51", ["C12"], "01b8b10", "a parallel chef run whose worker raised (truncated input) left its pathos workers cached: the next parallel Chef of the process computed at the failed run's pressure"),
+ ("F52", ["C12"], "dfb712f", "chk2plt iterated over Pool().imap(...) without keeping the pool referenced: with real pools the conversion blocked forever about once in a few hundred small conversions (1 hang in 480 before the repair, 0 in 480 after; seen by the real-pool tier only as an inconclusive time-out)"),
  ("F17", ["C13"], "b54633b", "chef default output with a trailing slash on the input landed inside the input plotfile"),
  ("F4",  ["C06", "C14"], "1c13bfd", "combine paired boxes / offsets in header order while scanning files sequentially: wrong data whenever a binary file is not stored in header order (mode switch was a == typo)"),
  ("F40", ["C06"], "a0b2e20", "combine --vars2 given on the command line (a string) was iterated character by character: every selection of the second input was refused"),
@@ -34,8 +36,11 @@ FIXED = [
  ("F46", ["C13"], "90f65f3", "chef on an input binary file cut after its first box returned normally: the single box found was broadcast to every box the level header lists for that file"),
  ("F47", ["C13"], "73637f4", "chk2plt on a state binary file cut after its first box returned normally: the single box found was broadcast to every box the level header lists for that file"),
  ("F48", ["C13"], "5d6e93a", "combine on a first input whose binary file is cut after its first box returned normally: the single offset found was broadcast to every box the level header lists for that file"),
+ ("F50", ["C13"], "34750da", "chk2plt with the same-step plotfile beside the checkpoint as target_plotfile and the default output (chk2plt -c chk00010 -p plt00010) wrote its Header, level headers and binaries over that input plotfile"),
  ("F21", ["C13"], "b455f93", "combine default output with a trailing slash on input 1 was input 2 itself (its Header overwritten)"),
  ("F6",  ["C07"], "a55b6fc", "mandoline default position was (high-low)/2, outside the domain for shifted origins -> uninitialised image"),
+ ("F49", ["C07", "C16"], "1fc4943", "slice plane within round-off of the last / first cell centre of a box (box bounds carrying 1 ulp of round-off): treated as one-sided, the other interpolation side was uninitialised memory"),
+ ("F53", ["C07", "C16"], "723f4f4", "slice plane on a cell centre with a neighbouring box half a cell away: interpolation with weights 1 and 0, so a field constant along the normal holding +-inf came back NaN (inf * 0)"),
  ("F20", ["C13"], "c0fc4b6", "mandoline default output with a trailing slash landed inside the input plotfile"),
  ("F7",  ["C07"], "31dbd00", "slice position within half a cell of an interior box face interpolated against a coarser level or uninitialised memory"),
  ("F8",  ["C07"], "29cfa29", "grid_level in the first / last half cell of the domain was min() with uninitialised memory"),
